@@ -277,6 +277,22 @@ def _interleave(ctx):
 
 # ------------------------------------------------------------------ C16
 
+def _lone(ctx, binary, prop, add, obligations):
+    """sequential liveness in the degenerate configurations (no seed, failing oracle, ...): every call sequence of length
+    <= 3 (thorough: 4) over the public methods of the real Neighborhood and AddressesRegistry returns"""
+    lone, why = _ruconc(binary, ["--mode", "lone", "--select", "thorough" if ctx.thorough else "quick"], 900)
+    if lone is None:
+        add(vlib.failure("diff", f"{prop}/harness-crash/ruconc-lone", why, {"why": why}, False))
+    else:
+        for f in _to_failures(lone):
+            add(f)
+        ctx.log(f"lone: {lone['configs']} configurations, {lone['sequences']} call sequences, {lone['calls']} calls, "
+                f"blocked={lone['blocked']} panicked={lone['panicked']}")
+    obligations.append({"name": "every call sequence over a lone Neighborhood / AddressesRegistry returns (no lock left held by a "
+                                f"finished call): {(lone or {}).get('sequences', 0)} sequences", "ok": lone is not None and not lone["failures"]})
+    return lone
+
+
 def run(ctx):
     prop = ctx.prop
     lean, tables, driver, generated, obligations, failures = _lean(ctx, C16_GROUPS)
@@ -300,6 +316,15 @@ def run(ctx):
         ctx.log("lean/core (interleavings):", "ok" if obligations[-1]["ok"] else "NOT ok")
     corr = {"evaluations": 0, "distinct_nontrivial": 0, "rule": "", "samples": [], "traces_validated_against_impl": 0}
     if tables is None:
+        # the tables cannot be regenerated (the proof side no longer checks): the searches for a failing input that need
+        # no table still run
+        ok, binary, blog = vlib.go_build("ruconc", race=True)
+        if ok:
+            sigs = {f["signature"] for f in failures}
+            lone = _lone(ctx, binary, prop, lambda f: None if f["signature"] in sigs else failures.append(f), obligations)
+            if lone:
+                corr.update({"evaluations": lone["sequences"], "distinct_nontrivial": lone["sequences"],
+                             "rule": "call sequences over lone components", "samples": ["lone"], "traces_validated_against_impl": lone["sequences"]})
         return vlib.result(lean=lean, corr=corr, failures=failures, generated=generated, extra_obligations=obligations,
                            assumptions=ASSUMPTIONS, trusted_base=TRUSTED)
     seen = {f["signature"] for f in failures}
@@ -398,6 +423,8 @@ def run(ctx):
         ctx.log(f"placements: {place['replayed']} replayed, {place['fired']} reached, {len(place['violations'])} violated")
     obligations.append({"name": "ruconc placements (decorated interfaces) ran", "ok": place is not None})
 
+    lone = _lone(ctx, binary, prop, add, obligations)
+
     # operation-level interleavings of the core model against the real code (rutrace, profile interleave, monitors off):
     # the model's stepTickSync / stepX candidates must contain the implementation's state after every such operation —
     # the unserializable outcome of the known finding included (it is PREDICTED by the model, C16_tickSync_counterexample)
@@ -438,6 +465,7 @@ def run(ctx):
             "placements_dynamic": {k: place.get(k) for k in ("replayed", "fired", "not_reached", "blocked", "excluded_by_table",
                                                              "sequentially_failing_too")} if place else None,
             "escapes": [f"{e['method']}: {e['loc']} {e['how']}" for e in tables["escapes"]],
+            "lone_sequences": {k: (lone or {}).get(k) for k in ("configs", "sequences", "calls", "by_config", "blocked", "panicked")},
             "exhaustive": False,
         })
     # the fetch worker of verifyNeighborBlockchain blocked for ever on its channel is a (partial) deadlock: the leak part
@@ -531,6 +559,11 @@ def replay(ctx, body):
     races = ctx.work / "races"
     races.mkdir(exist_ok=True)
     tpath = ctx.work / "tables.json"
+    if payload.get("mode") == "lone":
+        summary, why = _ruconc(binary, ["--mode", "lone", "--select", payload.get("config", "quick")], 600)
+        if summary is None:
+            return [vlib.failure("diff", f"{prop}/harness-crash/ruconc-lone", why, {}, False)]
+        return [f for f in _to_failures(summary) if f["signature"] == sig]
     if payload.get("mode") == "placements":
         spec = payload.get("spec") or {}
         # re-run exactly this placement through a one-entry table
